@@ -6,7 +6,10 @@ six categories and 0xB001, the real `send_c_find` (ordinary and Repository Query
 valid response of that status, after which the peer is silent.  "The generator continued" = it
 asked `dimse.get_msg` for another message.  Oracle: final <=> code_to_category(code) != Pending,
 except (Repository Query, 0xB001), which is not final.  The Lean `Status.scuFinal` is compared too.
-SCP-side finality is checked under C20.
+SCP side (`scp_check`): for every C-FIND-type service class and every code of its OWN status table the real
+`_c_find_scp` is run with a handler that yields that status and then a Pending match; "continued" = the Pending match
+was still answered.  Oracle: within one service the decision is a function of the table's category (what the code
+does: Pending and Warning go on, Success/Failure/Cancel end the operation) - never of the individual code.
 """
 from . import scu_rig as R
 
@@ -112,3 +115,39 @@ def check(ctx):
                              f"{kind} with query model {name}: status {c:#06x} ({cat}) {'continued' if cont else 'stopped'} but must be "
                              f"{'final' if want_final else 'non-final'}", case)
     ctx.extra["scu_finality_models"] = n_models
+
+
+def scp_check(ctx):
+    from . import scp_driver as sd
+
+    S = sd.services()
+    ds = ["ds", 1, False, None, True, True]
+    n = 0
+    for name, svc in S.items():
+        if svc["op"] != "scp.find":
+            continue
+        probe = sd.run_scp(svc, ["gen", ["y", ["p", ["i", 0x0000], None, "su"], 0]])
+        from pynetdicom import status as st
+
+        table = probe["table"]  # the NAME of the service's *_STATUS table
+        by_cat = {}
+        for code in sorted(c for c in getattr(st, table) if isinstance(c, int)):
+            cat = sd.table_cat(table, code)
+            h = ["gen", ["y", ["p", ["i", code], ds if cat == "Pending" else None, "su"], 0], ["y", ["p", ["i", 0xFF00], ds, "su"], 0]]
+            r = sd.run_scp(svc, h)
+            sts = [x["status"] for x in r["raw"]]
+            cont = len(sts) >= 2 and sts[0] == code and sts[1] == 0xFF00
+            by_cat.setdefault(cat, {}).setdefault(cont, []).append(code)
+            n += 1
+            ctx.case(["scp-final", name, code], nontrivial=True, kind=f"scp-final:{name}:{cat}")
+        for cat, d in by_cat.items():
+            if len(d) > 1:
+                ctx.fail(f"scp-final:{name}:{cat}:decision-depends-on-the-code",
+                         f"{name}: codes of the table category {cat} are treated differently - the operation goes on after "
+                         f"{[hex(c) for c in d[True]]} but ends after {[hex(c) for c in d[False]]}", ["scp-final", name, d[False][0]])
+            want = cat in ("Pending", "Warning")
+            got = next(iter(d)) if len(d) == 1 else None
+            if got is not None and got != want:
+                ctx.fail(f"scp-final:{name}:{cat}:{'ends' if want else 'goes-on'}",
+                         f"{name}: after a {cat} status of its table the operation {'goes on' if got else 'ends'}", ["scp-final", name, d[got][0]])
+    ctx.extra["scp_finality_cases"] = n
